@@ -181,6 +181,7 @@ def parseFlat (ws : List String) : Option ApiOp :=
   | ["plink", d, s] => do pure (.pLink (← idx 3 d) (← idx 3 s))
   | ["pnext", d] => do pure (.pNext (← idx 3 d))
   | ["pnextof", d, s] => do pure (.pNextOf (← idx 3 d) (← idx 3 s))
+  | ["prawnext", d] => do pure (.pNext (← idx 3 d))                  -- d = d->next.obj through operator=(C*): the same steps
   | ["sprepend", d, h] => do pure (.sPrepend (← idx 0 d) (← fromHex h))
   | ["sresize", d, n] => do pure (.sResize (← idx 0 d) (← num n))
   | ["sreplace", d, a, b] => do pure (.sEdit (← idx 0 d) 0 (← num a) (← num b))
@@ -377,7 +378,7 @@ def wellTyped (st : St) (ws : List String) : Bool :=
     else if op == "pnextof" then n d < 2
     else if op == "sresize" then n s ≤ (viewVal st (n d)).length
     else true
-  | [op, d] => if op == "pnext" then n d < 2 else true
+  | [op, d] => if op == "pnext" || op == "prawnext" then n d < 2 else true
   | _ => true
 
 def stepLine (d : DSt) (ws : List String) : DSt × String :=
